@@ -491,7 +491,7 @@ def suite_gen_hierarchy(rng, tier, shard, nshards):
     """exhaustive small rank vectors (all pairs of lists of length <= 2 (quick) / 3 (thorough) on {0,1,2} through
     _count_inversions, all aligned pairs + both transitive values through _compare_frame_rankings), random longer ones
     (gaps between levels, estimate longer / shorter), random matrices through _gauc (every window kind, shape
-    mismatch), _round / _hierarchy_bounds / _lca / _meet on lattice time stamps and the hierarchy / label streams"""
+    mismatch), _round / _hierarchy_bounds / _lca / _meet on lattice time stamps and the hierarchy / label streams, tmeasure / lmeasure on the hierarchy streams incl. structural and parameter faults"""
     kmax = 2 if tier == "quick" else 3
     lists = [list(t) for k in range(kmax + 1) for t in itertools.product(range(3), repeat=k)]
     cases = []
@@ -539,6 +539,16 @@ def suite_gen_hierarchy(rng, tier, shard, nshards):
         yield _retarget(c, "_lca")
     for c in suite_meet(rng, tier, shard, nshards):      # incl. fewer label levels, shorter / longer label lists
         yield _retarget(c, "_meet")
+    # stage 3: the public functions on the existing hierarchy streams (valid pairs, structural faults, parameter faults)
+    for k, c in enumerate(suite_tmeasure(rng, "quick", shard, nshards)):
+        if tier != "quick" or k < 80:
+            yield _retarget(c, "tmeasure")
+    for k, c in enumerate(suite_lmeasure(rng, "quick", shard, nshards)):
+        if tier != "quick" or k < 50:
+            yield _retarget(c, "lmeasure")
+    for k, c in enumerate(suite_faults(rng, "quick", shard, nshards)):
+        if tier != "quick" or k < 30:
+            yield _retarget(c, "tmeasure" if c.op == "hierarchy.tmeasure" else "lmeasure")
 
 
 SUITES["gen_hierarchy"] = suite_gen_hierarchy
